@@ -3,6 +3,7 @@ package checks
 import (
 	"fmt"
 	"net/url"
+	"sort"
 	"strings"
 
 	"github.com/gookit/rux"
@@ -79,7 +80,37 @@ type c01Case struct {
 	// Repeat > 0: after the normal pass every GET path is looked up Repeat more times in a row (a router that counts
 	// hits must not let the count change the answer), then the normal pass runs once more
 	Repeat int `json:"repeat_each_request,omitempty"`
+	// Cache > 0: the router caches dynamic matches (that capacity); after the normal pass (methods in the listed order)
+	// the whole pass is repeated with the methods in reverse order
+	Cache int `json:"route_cache_capacity,omitempty"`
+	// Paths != nil: the request paths (instead of the standard 259)
+	Paths []string `json:"request_paths,omitempty"`
 }
+
+// patterns whose literal text holds adjacent dots, and the paths that spell them with every single dot replaced
+var c01DotPool = []string{"/a/{x}..b", "/a..b/{x}", "/a/{x}", "/a/{x}.b..c", "/a..b[.c]", "/a/{x}..b.c", "/a/b..c"}
+
+var c01DotPaths = func() []string {
+	set := map[string]bool{}
+	for _, p := range c01DotPool {
+		for _, inst := range []string{strings.NewReplacer("{x}", "1", "[", "", "]", "").Replace(p), strings.NewReplacer("{x}", "b", "[.c]", "").Replace(p)} {
+			set[inst] = true
+			for i := 0; i < len(inst); i++ {
+				if inst[i] == '.' {
+					set[inst[:i]+"x"+inst[i+1:]] = true
+					set[inst[:i]+inst[i+1:]] = true
+				}
+			}
+			set[strings.ReplaceAll(inst, ".", "x")] = true
+		}
+	}
+	var out []string
+	for p := range set {
+		out = append(out, p)
+	}
+	sort.Strings(out)
+	return out
+}()
 
 // patterns for the StrictLastSlash tables: routes that end in '/', and routes whose tail after a literal first segment
 // may be empty
@@ -183,6 +214,21 @@ func c01Gen(tier string, emit func(c01Case)) {
 	permute(c01Pool, 2, func(pats []string) {
 		emit(c01Case{Routes: []refmodel.RouteDef{{Path: pats[0], Methods: []string{"GET"}}, {Path: pats[1], Methods: []string{"GET"}}}, Methods: []string{"GET"}, Strict: true})
 	})
+	// caching routers: every ordered pair of a single-method route and a two-method route, both ways round, with the
+	// methods requested in both orders (an entry cached for one method must not answer for another)
+	permute(c01Pool, 2, func(pats []string) {
+		for _, single := range []string{"GET", "POST"} {
+			emit(c01Case{Routes: []refmodel.RouteDef{{Path: pats[0], Methods: []string{single}}, {Path: pats[1], Methods: []string{"GET", "POST"}}}, Methods: []string{"GET", "POST"}, Cache: 64})
+		}
+		emit(c01Case{Routes: []refmodel.RouteDef{{Path: pats[0], Methods: []string{"GET", "POST"}}, {Path: pats[1], Methods: []string{"POST"}}}, Methods: []string{"POST", "GET"}, Cache: 2})
+	})
+	// literal text with adjacent dots: ordered pairs over a 7-pattern pool against every spelling with one dot replaced or dropped
+	permute(c01DotPool, 2, func(pats []string) {
+		emit(c01Case{Routes: []refmodel.RouteDef{{Path: pats[0], Methods: []string{"GET"}}, {Path: pats[1], Methods: []string{"GET"}}}, Methods: []string{"GET"}, Paths: c01DotPaths})
+	})
+	for _, p := range c01DotPool {
+		emit(c01Case{Routes: []refmodel.RouteDef{{Path: p, Methods: []string{"GET"}}}, Methods: []string{"GET", "HEAD"}, Paths: c01DotPaths})
+	}
 	// every all-GET ordered pair again with every path looked up 130 times in a row (hit counters, promotion thresholds)
 	permute(c01Pool, 2, func(pats []string) {
 		emit(c01Case{Routes: []refmodel.RouteDef{{Path: pats[0], Methods: []string{"GET"}}, {Path: pats[1], Methods: []string{"GET"}}}, Methods: []string{"GET"}, Repeat: 130})
@@ -221,6 +267,9 @@ func c01Run(c c01Case, st *fw.Stats) []fw.Viol {
 		}
 		note = " (caching router; the last route is not registered yet)"
 		r, pv = buildRouterVia(c.Routes[:n], c.Via, rec, rux.CachingWithNum(64))
+	} else if c.Cache > 0 {
+		note = fmt.Sprintf(" (route cache of capacity %d; methods requested in the order %v)", c.Cache, c.Methods)
+		r, pv = buildRouterVia(c.Routes, c.Via, rec, rux.CachingWithNum(uint16(c.Cache)))
 	} else if c.Strict {
 		note = " (StrictLastSlash)"
 		r, pv = buildRouterVia(c.Routes, c.Via, rec, rux.StrictLastSlash)
@@ -236,6 +285,14 @@ func c01Run(c c01Case, st *fw.Stats) []fw.Viol {
 		note = " (after the router was inspected with String / Routes / IterateRoutes / NamedRoutes)"
 	}
 	c01Requests(c, r, rec, tb, note, st, add)
+	if c.Cache > 0 && len(viols) == 0 {
+		c2 := c
+		c2.Methods = nil
+		for i := len(c.Methods) - 1; i >= 0; i-- {
+			c2.Methods = append(c2.Methods, c.Methods[i])
+		}
+		c01Requests(c2, r, rec, tb, fmt.Sprintf(" (route cache of capacity %d; second pass, methods in the order %v after a pass in the order %v)", c.Cache, c2.Methods, c.Methods), st, add)
+	}
 	if c.Repeat > 0 && len(viols) == 0 {
 		for _, p := range c01Paths {
 			want := tb.Resolve("GET", p).Route
@@ -269,6 +326,9 @@ func c01Requests(c c01Case, r *rux.Router, rec *hitRec, tb *refmodel.Table, note
 	paths := c01Paths
 	if c.Strict {
 		paths = c01PathsSlash
+	}
+	if c.Paths != nil {
+		paths = c.Paths
 	}
 	for _, m := range c.Methods {
 		for _, p := range paths {
@@ -350,7 +410,7 @@ func c01Requests(c c01Case, r *rux.Router, rec *hitRec, tb *refmodel.Table, note
 var c01Spec = fw.Spec[c01Case]{
 	ID:    "C01",
 	Level: "model_checking",
-	Rule: "complete product: ordered route tables of <=K distinct patterns from a 27-pattern pool (every index/tier shortcut has colliding members) x method sets x registration APIs (Add, AddRoute(NewRoute), AddNamed, NewNamedRoute.AttachTo, GET/POST/... helpers, options via WithOptions, the pattern split into a Group prefix and a route path) (+ HEAD requests against every ordered pair of a GET-only and a HEAD-only route) (+ StrictLastSlash tables: ordered pairs over an 11-pattern pool of routes that end in '/' or whose tail may be empty, and the pairs of the main pool, with every path also requested with a trailing slash) (+ every all-GET ordered pair again with every path looked up 130 times in a row and the whole pass repeated afterwards) (+ every ordered pair again after the router's inspection API was used, and on a caching router with the second route registered only after a first round of all requests) x request methods x all 259 paths of <=3 segments over {a,b,a.b,axb,12,q.html}; " +
+	Rule: "complete product: ordered route tables of <=K distinct patterns from a 27-pattern pool (every index/tier shortcut has colliding members) x method sets x registration APIs (Add, AddRoute(NewRoute), AddNamed, NewNamedRoute.AttachTo, GET/POST/... helpers, options via WithOptions, the pattern split into a Group prefix and a route path) (+ HEAD requests against every ordered pair of a GET-only and a HEAD-only route) (+ StrictLastSlash tables: ordered pairs over an 11-pattern pool of routes that end in '/' or whose tail may be empty, and the pairs of the main pool, with every path also requested with a trailing slash) (+ on caching routers every ordered pair of a one-method and a two-method route with the methods requested in both orders) (+ ordered pairs over 7 patterns whose literal text holds adjacent dots against every spelling with one dot replaced or dropped) (+ every all-GET ordered pair again with every path looked up 130 times in a row and the whole pass repeated afterwards) (+ every ordered pair again after the router's inspection API was used, and on a caching router with the second route registered only after a first round of all requests) x request methods x all 259 paths of <=3 segments over {a,b,a.b,axb,12,q.html}; " +
 		"each (table,method,path) is one evaluation: Router.Match and ServeHTTP on the real router vs refmodel.Resolve; non-trivial = at least two routes qualify or the winner is not the first registered route",
 	Assume: []string{
 		"patterns and paths are drawn from the stated alphabets; larger tables are covered only as far as the small-scope hypothesis goes",
